@@ -80,6 +80,12 @@ def gen():
     if not m1 or not m2:
         raise F.FactError("join_numeric::rewrite_gen: resume indices not recognised")
     out.append("Definition num_resume : Z := %s.\nDefinition num_resume_sep : Z := %s.\n" % (F.coq_int(int(m1.group(1)), "Z"), F.coq_int(int(m2.group(1)), "Z")))
+    # restart after a separator error: guarded by the flag (repaired) or not (the loop can then restart the same run for ever)
+    g1 = re.search(r"if\s+parser\.error_state\s*==\s*numeric_parser::Error::COMMA\s*&&\s*comma_as_digit\s*\{\s*comma_as_digit\s*=\s*false;\s*i\s*=\s*begin_idx\s*-\s*1;\s*\}\s*else\s+if\s+parser\.error_state\s*==\s*numeric_parser::Error::POINT\s*&&\s*period_as_digit\s*\{\s*period_as_digit\s*=\s*false;\s*i\s*=\s*begin_idx\s*-\s*1;\s*\}", b)
+    g0 = re.search(r"if\s+parser\.error_state\s*==\s*numeric_parser::Error::COMMA\s*\{\s*comma_as_digit\s*=\s*false;\s*i\s*=\s*begin_idx\s*-\s*1;\s*\}\s*else\s+if\s+parser\.error_state\s*==\s*numeric_parser::Error::POINT\s*\{\s*period_as_digit\s*=\s*false;\s*i\s*=\s*begin_idx\s*-\s*1;\s*\}", b)
+    if not g1 and not g0:
+        raise F.FactError("join_numeric::rewrite_gen: restart after a separator error not recognised")
+    out.append("Definition restart_requires_flag : bool := %s.\n" % ("true" if g1 else "false"))
     c = F.fn_body(n, "concat", NUM)
     ms = re.findall(r"end\s*-\s*begin\s*>\s*(\d+)", c)
     if len(ms) != 2 or ms[0] != ms[1]:
